@@ -76,8 +76,41 @@ let () = register "c13.hover" (fun line ->
   let addc c = if not (List.mem c !cls) then cls := c :: !cls in
   let show r = res_s (function HText t -> "hover=" ^ hex_of_bytes t | HSkip r -> skip_s r) r in
   let in_fragment = ref true in
+  (* cross-file hover (seeded/C13-7): a hover step on a file other than file 0 stands on a USE of a global that file 0
+     declares; the generator names the declaration's position in file 0 in an `H:<line>:<col>` item (one per such step,
+     in step order).  Model/Hover.v resolves a name inside ONE file: the driver composes - the hover text of a use in
+     another file = the hover text at the declaration in the DECLARING file (label, documentation = the declaring file's
+     comment, the declaring file's name); the word under both positions must be the same (else BAD-CASE) *)
+  let hints = ref (List.filter_map (fun it ->
+      if String.length it > 2 && String.sub it 0 2 = "H:" then
+        (match String.split_on_char ':' it with
+         | [_; a; b] -> Some (int_of_string a, int_of_string b)
+         | _ -> None)
+      else None) (split_ws line)) in
+  let word_at (bs : n list) l col =
+    let text = string_of_bytes bs in
+    match List.nth_opt (String.split_on_char '\n' text) l with
+    | None -> None
+    | Some ln ->
+      let isw ch = (ch >= 'a' && ch <= 'z') || (ch >= 'A' && ch <= 'Z') || (ch >= '0' && ch <= '9') || ch = '_' in
+      let n = String.length ln in
+      let a = ref (min col n) in
+      while !a > 0 && isw ln.[!a - 1] do decr a done;
+      let b = ref (min col n) in
+      while !b < n && isw ln.[!b] do incr b done;
+      if !b > !a then Some (String.sub ln !a (!b - !a)) else None in
+  let bad_case = ref false in
   let outs = List.filter_map (fun st -> match st with
       | StHover (i, l, col) ->
+        let (i, l, col) =
+          if i = 0 then (i, l, col) else
+            (match !hints with
+             | (l0, c0) :: rest ->
+               hints := rest;
+               let w = word_at (snd (List.nth c.files i)) l col and w0 = word_at (snd (List.nth c.files 0)) l0 c0 in
+               if w = None || w <> w0 then bad_case := true;
+               (0, l0, c0)
+             | [] -> bad_case := true; (0, l, col)) in
         let (rel, bs) = List.nth c.files i in
         let file = bytes_of_string rel in
         let r = hover_v fx gbk_oracle classify_tok gbk file bs (z_of_int l) (z_of_int col) in
@@ -113,7 +146,7 @@ let () = register "c13.hover" (fun line ->
   let souts = List.map snd outs and outs = List.map fst outs in
   if !two_byte then addc "two_byte";
   let skips = List.filter (fun o -> String.length o >= 4 && String.sub o 0 4 = "SKIP") outs in
-  let m = if !oracle_used then "SKIP-ORACLE" else match skips with s :: _ -> s | [] -> String.concat " | " outs in
+  let m = if !bad_case then "BAD-CASE" else if !oracle_used then "SKIP-ORACLE" else match skips with s :: _ -> s | [] -> String.concat " | " outs in
   m ^ "\t" ^ (if !in_fragment then String.concat " | " souts else "-") ^ "\t" ^ (match !cls with [] -> "-" | l -> String.concat "," (List.sort compare l)))
 
 let () = main ()
